@@ -146,6 +146,11 @@ impl<'a> G<'a> {
             8 | 9 => { let (a, da) = self.expr(depth - 1); let e = self.rng.range(-3, 4);
                 let r = da.map(|x| { let mut y: DV = x.iter().map(|(k, p)| (k.clone(), p * e)).collect(); y.retain(|_, p| *p != 0); y });
                 (format!("({})^{}", a, e), r) }
+            10 if self.rng.chance(1, 3) => { // a negative or non-unit fraction as exponent: only a dimensionless base has such a power
+                let (a, da) = self.expr(depth - 1);
+                let e = *self.rng.pick(&["-1|2", "-1|3", "2|3", "3|2", "-2|3", "0.5 + 1", "-0.5"]);
+                let r = da.and_then(|x| if x.is_empty() { Ok(DV::new()) } else { Err(()) });
+                (format!("({})^({})", a, e), r) }
             10 => { // roots
                 let (a, da) = self.expr(depth - 1); let n = self.rng.range(2, 3);
                 let r = da.and_then(|x| if x.values().all(|p| p % n == 0) { Ok(x.iter().map(|(k, p)| (k.clone(), p / n)).collect()) } else { Err(()) });
@@ -216,7 +221,7 @@ pub fn run_c02(o: &Opts) -> i32 {
     // fixed corpus first
     for (t, d) in [("meter^0", "-"), ("(m^2)^0 + 1", "-"), ("m^0 s", "s:1"), ("'a'^0", "-"),
                    ("5 and 3 meter", "refuse"), ("3 meter and 5", "refuse"), ("12 second xor 5", "refuse"), ("0xff or 3 byte", "refuse"), ("meter and meter", "refuse"), ("6 and 3", "-"), ("6 m << 2", "m:1"), ("6 << 2 m", "refuse"),
-                   ("hypot(3 m, 0 s)", "refuse"), ("hypot(0 m, 4 kg)", "refuse"), ("hypot(0, 5 W)", "refuse"), ("atan2(0 m, 1 s)", "refuse"), ("0 m + 0 s", "refuse"), ("0 m - 1 s", "refuse"), ("0 m mod 3 s", "refuse"), ("hypot(0 m, 0 m)", "m:1")] {
+                   ("(4 m^2)^(-1|2)", "refuse"), ("(1 / s^2)^(-1|2)", "refuse"), ("(0 m)^2", "m:2"), ("(5 kg - 5 kg)^3", "kg:3"), ("(0 m)^-1", "refuse"), ("4^(-1|2)", "-"), ("hypot(3 m, 0 s)", "refuse"), ("hypot(0 m, 4 kg)", "refuse"), ("hypot(0, 5 W)", "refuse"), ("atan2(0 m, 1 s)", "refuse"), ("0 m + 0 s", "refuse"), ("0 m - 1 s", "refuse"), ("0 m mod 3 s", "refuse"), ("hypot(0 m, 0 m)", "m:1")] {
         writeln!(req, "{}", req_line(t)).unwrap();
         writeln!(aux, "{}", json!({"alg": d})).unwrap();
     }
